@@ -90,10 +90,16 @@ impl Pattern {
         match hir.kind() {
             HirKind::Empty => 0,
             // A byte pattern counts bytes, even when they happen to be valid UTF-8
-            HirKind::Literal(lit) => match std::str::from_utf8(&lit.0) {
-                Ok(s) if unicode => 2 * s.chars().count(),
-                _ => 2 * lit.0.len(),
-            },
+            HirKind::Literal(lit) if !unicode => 2 * lit.0.len(),
+            // Otherwise characters are counted, and a byte that belongs to none (it was written
+            // as `(?-u:\xff)` next to them) counts as one
+            HirKind::Literal(lit) => {
+                2 * lit
+                    .0
+                    .utf8_chunks()
+                    .map(|chunk| chunk.valid().chars().count() + chunk.invalid().len())
+                    .sum::<usize>()
+            }
             HirKind::Class(_) => 2,
             HirKind::Look(_) => 0,
             HirKind::Repetition(repetition) => {
